@@ -26,14 +26,19 @@ Import ListNotations.
 (* ================================================================================================ *)
 (** * Part 1: tables *)
 
-Inductive lock_kind := LkNone | LkLock | LkRLock.
+Inductive lock_kind := LkNone | LkLock | LkRLock | LkHeld.
 
 Record mutex_method := {
   mm_pkg : string; mm_type : string; mm_method : string;
   mm_touches : bool;        (* reads or writes a field of the receiver that is mutated after construction *)
   mm_writes : bool;         (* writes such a field *)
-  mm_lock : lock_kind;      (* first statement: recv.mu.Lock() / RLock() *)
-  mm_defer_unlock : bool    (* second statement: defer recv.mu.Unlock() / RUnlock() *)
+  mm_lock : lock_kind;      (* first statement: recv.mu.Lock() / RLock(); LkHeld: an unexported helper of the object that is only
+                               called by the object's own methods, each holding the lock at the call *)
+  mm_defer_unlock : bool;   (* second statement: defer recv.mu.Unlock() / RUnlock() *)
+  mm_reads_locked : bool;   (* every read of guarded state happens with the shared or the exclusive lock held: by the method
+                               itself (statements between Lock/RLock and Unlock/RUnlock or after Lock; defer Unlock) or, in a
+                               helper, by all of its callers *)
+  mm_writes_locked : bool   (* every write of guarded state happens with the EXCLUSIVE lock held *)
 }.
 
 Inductive gwkind := GwAssign | GwIndex | GwField | GwAppend | GwDelete | GwDeref | GwIncr | GwMethod | GwAddr.
@@ -93,15 +98,9 @@ Definition mem_str (s : string) (l : list string) : bool := existsb (String.eqb 
 Definition mem_pair (p f : string) (l : list (string * string)) : bool :=
   existsb (fun x => String.eqb p (fst x) && String.eqb f (snd x)) l.
 
-(* a method that touches guarded state holds the mutex for its whole body; a read lock only if it does not write *)
+(* a method that touches guarded state reads it under the shared or exclusive lock and writes it under the exclusive lock only *)
 Definition mutex_method_ok (m : mutex_method) : bool :=
-  negb (mm_touches m) ||
-  (mm_defer_unlock m &&
-   match mm_lock m with
-   | LkLock => true
-   | LkRLock => negb (mm_writes m)
-   | LkNone => false
-   end).
+  negb (mm_touches m) || (mm_reads_locked m && mm_writes_locked m).
 
 Definition is_method (pkg ty name : string) (m : mutex_method) : bool :=
   String.eqb (mm_pkg m) pkg && String.eqb (mm_type m) ty && String.eqb (mm_method m) name.
